@@ -14,8 +14,7 @@ CONE_RULES = {"dup_field", "misaligned_member", "misaligned_size", "undefined_fi
 
 def known_class(info, entry):
     r = info["rule"]
-    if r == "const_vs_type_name":
-        return "K_const_vs_type_name"
+    # (a constant named like a type is a duplicate symbol since its repair: no class of its own)
     if r == "dup_param" and info["where"] == "inc":
         return "K_main_file_only"
     if r in CONE_RULES and info.get("in_cone") is False:
